@@ -54,6 +54,17 @@ def case_body(f, cls_name):
     for n in walk_own(f.node):
         if isinstance(n, ast.If) and U(n.test).replace(" ", "") == f"isinstance({model},{cls_name})":
             return _Case(n.body)
+    # `if not isinstance(model, Cls): <leave>` followed by the statements for Cls (the engine's one shape for a two-armed `if` whose
+    # other arm leaves)
+    for owner in [f.node] + list(walk_own(f.node)):
+        for fld in ("body", "orelse"):
+            blk = getattr(owner, fld, None)
+            if not (isinstance(blk, list) and blk and isinstance(blk[0], ast.stmt)):
+                continue
+            for i, n in enumerate(blk):
+                if isinstance(n, ast.If) and not n.orelse and U(n.test).replace(" ", "") == f"notisinstance({model},{cls_name})" \
+                        and isinstance(n.body[-1], (ast.Raise, ast.Return)):
+                    return _Case(blk[i + 1:])
     raise AnalysisError(f"sampling.sample: neither `match {model}` with `case {cls_name}()` nor `isinstance({model}, {cls_name})` found")
 
 
